@@ -442,6 +442,9 @@ class RunLoop(Unit):
             if '$counter' in fr.locals and k_write[1].startswith('for@'):
                 # written as `for _ in range(LIMIT)`: the position in the range is the number of packets written
                 return And(base, G['written'] == fr.locals['$counter'] - fr.locals['$start'])
+            if RunLoop.write_test_limits:
+                # written as `while count < LIMIT: if ...: break; count += 1`: the limit is re-tested at every head
+                return And(base, fr.locals['num_packets'] == G['written'], G['written'] <= 300)
             # written as `while ... : count += 1; if count >= LIMIT: break`: the loop's own counter carries the limit
             return And(base, fr.locals['num_packets'] == G['written'], G['written'] < 300)
 
@@ -454,7 +457,7 @@ class RunLoop(Unit):
             unit.queue.head = k
             # packets may have been queued meanwhile and a reaction may have interrupted the thread
             unit.thread.__dict__['interrupt'] = bool(E.fork(2, 'interrupted@write-head'))
-        I.loop_specs[k_write] = LoopSpec('write-batch', w_inv, w_havoc, lambda I_, fr: 300 - fr.locals['num_packets'])
+        I.loop_specs[k_write] = LoopSpec('write-batch', w_inv, w_havoc, lambda I_, fr: 301 - fr.locals['num_packets'])
 
         def r_inv(I_, fr):
             G = unit.G
@@ -481,26 +484,32 @@ class RunLoop(Unit):
     def loops_by_role():
         """(outer, write batch, read batch) loop keys of _run, found by what the loops DO (which one contains the others,
         which one pops from the queue, which one reads packets) - `while` and `for ... in range(...)` forms alike."""
-        import inspect, textwrap
-        f = raw(NetworkingThread, '_run')
-        lines, start = inspect.getsourcelines(f)
-        tree = ast.parse(textwrap.dedent(''.join(lines)))
-        loops = sorted((n for n in ast.walk(tree) if isinstance(n, (ast.While, ast.For))), key=lambda n: n.lineno)
+        from .common import reachable_loop_nodes
+        found = []
+        for kind in (ast.While, ast.For):
+            found += reachable_loop_nodes(raw(NetworkingThread, '_run'), NetworkingThread, kind=kind, depth=1)
+        loops = [n for _f, n, _k in found]
+        keyof = {id(n): k for _f, n, k in found}
+        in_run = {id(n) for f, n, _k in found if f is raw(NetworkingThread, '_run')}
 
         def key(n):
-            return (N_, '%s@%d' % ('while' if isinstance(n, ast.While) else 'for', n.lineno + start - 1))
+            return keyof[id(n)]
 
         def mentions(n, name):
             return any(isinstance(x, ast.Attribute) and x.attr == name for x in ast.walk(n))
 
         def inner(n):
             return [m for m in ast.walk(n) if m is not n and isinstance(m, (ast.While, ast.For))]
-        outer = [n for n in loops if len(inner(n)) == 2]
         write = [n for n in loops if not inner(n) and mentions(n, '_pop_packet')]
         read = [n for n in loops if not inner(n) and mentions(n, 'read_packet')]
+        # the outer loop: the loop of _run itself that is neither of the two batches (it contains them or calls them)
+        outer = [n for n in loops if id(n) in in_run and n not in write and n not in read]
         if len(loops) != 3 or len(outer) != 1 or len(write) != 1 or len(read) != 1:
             raise Unsupported('contract does not fit the code any more: _run is not "a loop around a write batch and a read batch" '
                               '(%d loops found)' % len(loops))
+        # does the write loop's own test carry the batch limit (while count < LIMIT) or does the body break at the limit?
+        RunLoop.write_test_limits = isinstance(write[0], ast.While) and \
+            any(isinstance(x, ast.Compare) for x in ast.walk(write[0].test))
         return key(outer[0]), key(write[0]), key(read[0])
 
     def havoc_outer(self, I):
